@@ -50,10 +50,13 @@ Contract(
         _CONS("cls", "result", "result.shape[0]"),
         "(not %s) or (%s and dd[lower_region] == dd[upper_region])" % (
             _CONS("dd", "result", "result.shape[0]"), _CONS("dd", "old(region_lookup)", "L0").replace("old(region_lookup)[i]", "old(region_lookup[i])")),
+        # only entries at or below upper_region are written (the chain descends); new entries are zero
+        "all(result[i] == (old(region_lookup[i]) if i < L0 else 0) for i in range(upper_region + 1, result.shape[0]))",
     ],
     loops={0: LoopSpec("while", inv=[
         "region_lookup.shape[0] > upper_region and region_lookup.shape[0] >= L0",
-        "1 <= lower_region and lower_region < upper_region",
+        "1 <= lower_region and lower_region < upper_region and upper_region <= old(upper_region)",
+        "all(region_lookup[i] == at_entry(0, region_lookup[i]) for i in range(old(upper_region) + 1, region_lookup.shape[0]))",
         _FOREST("region_lookup", "region_lookup.shape[0]"),
         _CONS("cls", "region_lookup", "region_lookup.shape[0]"), "cls[lower_region] == cls[upper_region]",
         "(not (%s and dd[lower_region] == dd[upper_region])) or (%s and dd[old(lower_region)] == dd[old(upper_region)])" % (
@@ -63,3 +66,123 @@ Contract(
     options={"select_patterns": True},
     props=("C15",), native={"skip": True},
 )
+
+# ---- _is_close: a numba generated_jit dispatcher (integer arguments: ==, otherwise |value - reference| <= 1e-8 + 1e-5 |reference|);
+# its two lambdas are pinned on the AST (contracts/tables.py); on the contract's domain both mean equality
+Contract(M, "_is_close", {"reference": "float", "value": "float"}, result="bool",
+         ensures=["(not (isfinite(reference) and isfinite(value) and rg_separated(value, reference))) or result == (value == reference)"],
+         options={"trusted": "generated_jit dispatcher: selects `value == reference` for integers and the isclose form otherwise (the two "
+                             "lambdas are checked on the AST); on finite values where isclose is equality both are `value == reference`"},
+         props=("C15",), native={"skip": True})
+
+# ---- _calculate_regions: one-pass labelling with W / S (/ SW / SE) neighbours + merge forest, flattening, relabelling.
+# Ghost state: comp - any labelling of the cells that joins equal back-neighbours (so: any adjacency-closed labelling);
+#              cls  - per region id, the comp class of its cells (written when an id is created);
+#              dd   - *prophecy*: any labelling of region ids; ghost_proph says it is the flattened lookup computed in phase 2.
+_N = "nx * ny"
+_ALLC = lambda body, hi="n": "all(%s for p in range(0, %s) if trig(p))" % (body, hi)
+_HINT = "trig(ij) and trig(ij - 1) and trig(ij - nx) and trig(ij - nx - 1) and trig(ij - nx + 1)"
+# row arithmetic used by the two skipped-neighbour arguments: W has a S neighbour (= SW), SE has a W neighbour (= S)
+_MODW = "(not (ij >= nx and ij % nx > 0)) or ij - 1 >= nx"
+_MODS = "(not (ij >= nx and ij % nx < nx - 1)) or (ij - nx + 1) % nx > 0"
+_UNM = "pz_unm(mask, p)"
+_S1 = lambda hi: [
+    # cells handled so far: masked <-> 0; otherwise an id in 1..region whose class is the cell's comp class
+    _ALLC("regions[p] == 0 if not %s else (1 <= regions[p] and regions[p] <= region and cls[regions[p]] == comp[p])" % _UNM, hi),
+]
+_LOOK = [
+    "region_lookup.shape[0] >= 1 and region >= 0",
+    "all(0 <= regions[p] and regions[p] <= region for p in range(0, regions.shape[0]))",
+    _FOREST("region_lookup", "region_lookup.shape[0]"),
+    _CONS("cls", "region_lookup", "region_lookup.shape[0]"),
+    "all(region_lookup[i] == 0 for i in range(region + 1, region_lookup.shape[0]))",
+]
+_C1 = lambda hi: "(not %s) or %s" % (_CONS("dd", "region_lookup", "region_lookup.shape[0]"),
+                                     _ALLC("(not %s) or pz_rback(dd, regions, values, mask, connectivity_8, nx, p)" % _UNM, hi))
+
+
+_CELL_S = "1 <= regions[ij] and regions[ij] <= region and cls[regions[ij]] == comp[ij]"
+_CELL_C = "(not %s) or pz_rback(dd, regions, values, mask, connectivity_8, nx, ij)" % _CONS("dd", "region_lookup", "region_lookup.shape[0]")
+
+
+_CONSDD = _CONS("dd", "region_lookup", "region_lookup.shape[0]")
+_PEQ = lambda q: "pz_eq(values, mask, ij, %s)" % q
+# what is known about region_W / region_S once they are set: the class, and (if dd respects the merge forest) that dd joins them with
+# *both* cells on their side, the one that was not examined included (it is the S / W neighbour of the one that was)
+_HW = ("1 <= region_W and region_W <= region and cls[region_W] == comp[ij] and ((not %s) or ("
+       "((not pz_has_W(ij, nx)) or (not %s) or dd[regions[ij - 1]] == dd[region_W]) and "
+       "((not (connectivity_8 and pz_has_S(ij, nx) and pz_has_W(ij, nx))) or (not %s) or dd[regions[ij - nx - 1]] == dd[region_W])))"
+       % (_CONSDD, _PEQ("ij - 1"), _PEQ("ij - nx - 1")))
+_HS = ("1 <= region_S and region_S <= region and cls[region_S] == comp[ij] and ((not %s) or ("
+       "((not pz_has_S(ij, nx)) or (not %s) or dd[regions[ij - nx]] == dd[region_S]) and "
+       "((not (connectivity_8 and pz_has_S(ij, nx) and ij %% nx < nx - 1)) or (not %s) or dd[regions[ij - nx + 1]] == dd[region_S])))"
+       % (_CONSDD, _PEQ("ij - nx"), _PEQ("ij - nx + 1")))
+
+
+def calc_regions(variant, mask_ty):
+    Contract(
+        M, "_calculate_regions@" + variant,
+        {"values": "f1", "mask": mask_ty, "connectivity_8": "bool", "nx": "int", "ny": "int"},
+        ghost_params={"comp": "i1", "cls": "i1", "dd": "i1"},
+        lets=[("n", _N)],
+        requires=["nx >= 1 and ny >= 1 and values.shape[0] == n"] + (["mask.shape[0] == n"] if mask_ty != "none" else []) + [
+            _ALLC("isfinite(values[p])"),
+            "all(rg_separated(values[p], values[q]) for p in range(0, n) for q in range(0, n) if trig(p) and trig(q))",
+            _ALLC("(not %s) or pz_back(comp, values, mask, connectivity_8, nx, p)" % _UNM)],
+        raises={"RuntimeError": "True"},
+        result="i1", modifies=("cls",),
+        ensures=[
+            "result.shape[0] == n",
+            _ALLC("(result[p] == 0) == (not %s) and result[p] >= 0" % _UNM),
+            # soundness: equal labels => equal class, for every adjacency-closed comp
+            "all((not (%s and pz_unm(mask, q) and result[p] == result[q])) or comp[p] == comp[q] for p in range(0, n) for q in range(0, n) "
+            "if trig(p) and trig(q))" % _UNM,
+            # completeness step (under the prophecy): the result joins every cell with its equal back-neighbours
+            "(not ghost_proph) or " + _ALLC("(not %s) or pz_back(result, values, mask, connectivity_8, nx, p)" % _UNM),
+        ],
+        loops={
+            0: LoopSpec("for", index="ij", inv=["regions.shape[0] == n"] + _LOOK + _S1("ij") + [_C1("ij")]),
+            1: LoopSpec("for", index="i", inv=["regions.shape[0] == n", "max_region == region + 1", "new_region_lookup.shape[0] == max_region",
+                                               "n_region_lookup == region_lookup.shape[0]"] + _LOOK + _S1("n") + [
+                _C1("n"),
+                "0 <= new_region and new_region <= i",
+                "all(0 <= new_region_lookup[k] and new_region_lookup[k] < new_region for k in range(0, i))",
+                "i == 0 or new_region_lookup[0] == 0",
+                "all(new_region_lookup[k] >= 1 for k in range(1, i))",
+                "all((not (new_region_lookup[k] == new_region_lookup[m])) or cls[k] == cls[m] for k in range(1, i) for m in range(1, i))",
+                "all(region_lookup[k] == 0 or new_region_lookup[k] == new_region_lookup[region_lookup[k]] "
+                "for k in range(0, i) if k < n_region_lookup)",
+            ]),
+            2: LoopSpec("for", index="ij", inv=[
+                "regions.shape[0] == n",
+                "all(regions[p] == region_lookup[at_entry(2, regions[p])] for p in range(0, ij))",
+                "(not ghost_proph) or " + _ALLC("(not %s) or pz_back(regions, values, mask, connectivity_8, nx, p)" % _UNM, "ij"),
+                "all(regions[p] == at_entry(2, regions[p]) for p in range(ij, n))",
+            ]),
+        },
+        ghost={"after_assign": dict({
+            # the facts about the cell just labelled, proved where its label is assigned (before the branches are joined)
+            k: ["assert " + _CELL_S, "assert " + _CELL_C] for k in ("regions<-region_W", "regions<-region_S", "regions<-region")},
+            **{"regions<-lower_region": ["assert " + _CELL_S],
+               "region_lookup<-_merge_regions(region_lookup, lower_region, upper_region)": ["assert " + _CELL_C]},
+            **{
+            "matches_W": ["assert " + _HINT, "assert " + _MODW, "assert " + _MODS],
+            "region_W": ["assert " + _HW],
+            "region_S": ["assert " + _HS],
+            "region<-<aug>": ["cls[region] = comp[ij]"],
+            "n_region_lookup": ["ghost_lookup1 = region_lookup"],
+            "region_lookup<-new_region_lookup": [
+                "ghost_proph = all(dd[k] == new_region_lookup[k] for k in range(0, max_region))",
+                # under the prophecy dd respects the merge forest of phase 1 ...
+                "assert (not ghost_proph) or " + _CONS("dd", "ghost_lookup1", "ghost_lookup1.shape[0]"),
+                # ... so it joins every cell with its equal back-neighbours (phase-1 invariant)
+                "assert (not ghost_proph) or " + _ALLC("(not %s) or pz_rback(dd, regions, values, mask, connectivity_8, nx, p)" % _UNM),
+            ],
+        })},
+        options={"select_patterns": True, "ghost_spec_mode": True, "ensures_locals": ("ghost_proph",)},
+        props=("C15",), native={"skip": True},
+    )
+
+
+calc_regions("mask", "b1")
+calc_regions("nomask", "none")
